@@ -212,7 +212,10 @@ def run(ctx: Ctx, tier: str) -> Result:
     FC = term(ctx, fi, "self.fire_count")
     FIRED = term(ctx, fi, "self.__stats.fire_count")
     LAST = term(ctx, fi, "self.__stats.last_fire")
-    WINQ = term(ctx, fi, "self.__window.in_window(%s)" % ts)
+    winq = [k for k in tb.vars.truths if ".in_window(" in k]
+    if len(winq) != 1:
+        res.fail(Finding("C04.TABLE", fi.qname, "<window test>", fi.loc(), "can_trigger consults the time window %d times (expected once): a tracepoint fires outside its configured window" % len(winq)))
+    WINQ = winq[0] if winq else "<in window>"
     ELAPSED = term(ctx, fi, "%s - self.__stats.last_fire" % ts)
     partners = [b if a == ELAPSED else a for (a, b) in tb.vars.rels if ELAPSED in (a, b)]
     rv = Vars()
@@ -275,6 +278,12 @@ def run(ctx: Ctx, tier: str) -> Result:
         res.fail(Finding("C04.WINDOW", init.qname, wctor[0], init.loc(wctor[0]), "window start/end are not read from window_start/window_end in that order: %s" % wa))
 
     # ---------------- UNITS
+    # the window is kept in ms (in_window documents `ts: time in ms`), the trigger time is in ns
+    want_w = "@self._LocationAction__window.in_window(@%s // 1000000)" % ts
+    if WINQ in (want_w, want_w.replace("// 1000000", "/ 1000000"), "@self._LocationAction__window.in_window(int(@%s / 1000000))" % ts):
+        res.ok("C04.UNITS", {"window test": WINQ})
+    else:
+        res.fail(Finding("C04.UNITS", fi.qname, WINQ, fi.loc(), "the window (epoch ms) is tested with `%s`, expected the ns trigger time scaled to ms (ts // 1000000)" % WINQ))
     per = [n for r in tb.rows for c, _ in r.conds for n in ast.walk(c) if isinstance(n, ast.Compare) and norm(n.left) == ELAPSED]
     need(per, "can_trigger: comparison of elapsed time not found")
     k, rest = const_factor(per[0].comparators[0])
